@@ -143,6 +143,14 @@ def firstPc (sh : Shared) : OpSpec → Next
   | .viewsum _ => firstVal sh
   | _ => .pc .curLoad
 
+/-- is the slot with start `s` part of the read?  `valuesWithTime`: not deprecated; `ValuesConditional` of a view:
+    not deprecated and inside the view's start range -/
+def keepOf (sh : Shared) (op : OpSpec) (now s : Nat) : Bool :=
+  match op with
+  | .viewsum _ =>
+      !deprecated (sh.n * sh.L) now s && decide ((rangeOf sh.L sh.Iv now).1 ≤ s ∧ s ≤ (rangeOf sh.L sh.Iv now).2)
+  | _ => !deprecated (sh.n * sh.L) now s
+
 /-- one step of a thread inside operation `op` started at clock reading `now` -/
 def decideStep (sh : Shared) (op : OpSpec) (now : Nat) (pc : Pc) : Act × Next :=
   let i := (now / sh.L) % sh.n
@@ -184,12 +192,7 @@ def decideStep (sh : Shared) (op : OpSpec) (now : Nat) (pc : Pc) : Act × Next :
   | .valGet j col => (.none, .pc (.depLoad j col))
   | .depLoad j col =>
       let s := sh.start j
-      let keep : Bool :=
-        match op with
-        | .viewsum _ =>
-            let r := rangeOf sh.L sh.Iv now
-            !deprecated (sh.n * sh.L) now s && decide (r.1 ≤ s ∧ s ≤ r.2)
-        | _ => !deprecated (sh.n * sh.L) now s
+      let keep : Bool := keepOf sh op now s
       let col' := if keep then col ++ [j] else col
       (.none, if j + 1 < sh.n then .pc (.valGet (j + 1) col') else afterScan col')
   | .mbGet rem acc =>
